@@ -371,7 +371,7 @@ def replay(chk, c):
 def main(tier):
     chk = Check(PID, tier)
     chk.candidates = []
-    pairs = [(2, 3)] if tier == 'quick' else [(2, 3), (3, 2), (3, 4), (4, 4), (5, 6), (6, 2)]
+    pairs = [(2, 3), (2, 4)] if tier == 'quick' else [(2, 3), (3, 2), (3, 4), (4, 4), (5, 6), (6, 2)]
     items = [(k0, k1, dA, dB, tier, chk.seed) for (dA, dB) in pairs for k0 in KINDS for k1 in KINDS]
     chk.cov['bounds'] = {'pool': '4 slots: two operands in {empty, self-owned, external} x two dimensions, one self-owned observer, one free slot; 3 user buffers with symbolic contents',
                          'dimensions': pairs, 'histories': 'all 1-step operations of the catalogue; consume(move/theft)->re-use family with 2 steps; with a third observing operation (3 steps)'
